@@ -64,7 +64,10 @@ EXPECT_PROBES = ["side_ctl", "side_sw", "fault_len", "fault_type",
                  "fault_random", "victim_closed", "victim_survived",
                  "len_zero", "len_short", "len_long", "victim_slow_reader",
                  "victim_had_unsent_replies", "late_sentinels_sent",
-                 "victim_before_hello", "close_callback_raised"]
+                 "victim_before_hello", "close_callback_raised",
+                 "victim_mid_handshake_features",
+                 "victim_mid_handshake_barrier",
+                 "victim_mid_handshake_barrier_x"]
 
 PORT = G.PORT
 
@@ -134,7 +137,14 @@ def gen_plan(seed, tier):
          "close_cb_raises": r.chance(0.3),
          # when the slow reader finally reads, the victim's socket also
          # reports an exceptional condition (urgent data) in the same select
-         "oob_when_unblocked": r.chance(0.3)}
+         "oob_when_unblocked": r.chance(0.3),
+         # controller side: the victim is still in its handshake when the
+         # damaged stream arrives (features / barrier reply outstanding);
+         # "barrier_x" = it starts with a well-formed BARRIER_REPLY that
+         # carries somebody else's xid
+         "mid_handshake": (r.pick(["features", "barrier", "barrier_x",
+                                   "barrier_x"])
+                           if side == "ctl" and r.chance(0.2) else None)}
   if max(len(m) for m in msgs) > 20000 and cfg["recv_mode"] == "dribble":
     cfg["recv_mode"] = "choose"
   return {"prop": PROP, "seed": seed, "cfg": cfg,
@@ -156,6 +166,8 @@ def minimise_hint(plan):
     out.append(dict(plan, cfg=dict(plan["cfg"], late_sentinels=False)))
   if plan["cfg"].get("before_hello"):
     out.append(dict(plan, cfg=dict(plan["cfg"], before_hello=False)))
+  if plan["cfg"].get("mid_handshake"):
+    out.append(dict(plan, cfg=dict(plan["cfg"], mid_handshake=None)))
   return out
 
 
@@ -291,8 +303,26 @@ def _drive_ctl(sim, plan, known, hit):
   victim = world.new_peer("victim")
   sibs = [world.new_peer("sib%d" % i) for i in range(cfg["nsib"])]
   sim.settle()
-  if not handshake_script(victim, 0x10, [PORT]):
-    raise S.SimAbort("harness", "victim handshake failed")
+  stage = cfg.get("mid_handshake")
+  lead = b""
+  if not stage:
+    if not handshake_script(victim, 0x10, [PORT]):
+      raise S.SimAbort("harness", "victim handshake failed")
+  else:
+    sim.probes["victim_mid_handshake_" + stage] += 1
+    victim.send(W.enc_hello(0))
+    sim.drain()
+    fr = [d for d in victim.take() if d["type"] == W.FEATURES_REQUEST]
+    if not fr:
+      raise S.SimAbort("harness", "no features request for the victim")
+    if stage != "features":
+      victim.send(W.enc_features_reply(fr[0]["xid"], 0x10, [PORT]))
+      sim.drain()
+      br = [d for d in victim.take() if d["type"] == W.BARRIER_REQUEST]
+      if not br:
+        raise S.SimAbort("harness", "no barrier request for the victim")
+      if stage == "barrier_x":
+        lead = W.enc_barrier_reply(br[0]["xid"] ^ 0x10000)
   for i, sp in enumerate(sibs):
     if not handshake_script(sp, 0x20 + i, [PORT]):
       raise S.SimAbort("harness", "sibling handshake failed")
@@ -310,6 +340,7 @@ def _drive_ctl(sim, plan, known, hit):
         sent_sib[sp].append(sx[0])
 
   stream, eof = damaged_stream(plan)
+  stream = lead + stream
   sentinels = []
   for i in range(cfg.get("sentinels", 0)):
     sentinels.append(W.enc_echo_request(0x6000 + i, b"s"))
